@@ -4,7 +4,8 @@
 (* mutation lattice, and generator of the cases replayed by                *)
 (* harness/cmd/c07.                                                        *)
 (*                                                                         *)
-(* A case: [op |-> "verify", h, mut, cls, tx, base]: verify tx at height h;*)
+(* A case: [op |-> "verify", h, mut, cls, tx, base, ctx]: offer tx at       *)
+(* height h to a pool that is in context ctx (TxAuth!Contexts);            *)
 (* tx was derived from the honest transaction base by mutation mut of      *)
 (* class cls:                                                              *)
 (*   "honest"  an honestly built transaction (base, or a variant that was  *)
@@ -20,12 +21,17 @@
 (***************************************************************************)
 EXTENDS TxAuth, TLC, Json
 
-CONSTANTS HashBits, SignBits, SourceBits, FieldBits, EdBits    \* bit positions swept (sets of naturals)
+CONSTANTS HashBits, SignBits, SourceBits, FieldBits, EdBits,   \* bit positions swept (sets of naturals)
+          CtxAll       \* TRUE: every case in every pool context; FALSE: the bit sweeps only in the empty pool
 
 VARIABLES phase, c
 vars == <<phase, c>>
 
-Case(h, mut, cls, tx, base) == [op |-> "verify", h |-> h, mut |-> mut, cls |-> cls, tx |-> tx, base |-> base]
+Case(h, mut, cls, tx, base) ==
+  [op |-> "verify", h |-> h, mut |-> mut, cls |-> cls, tx |-> tx, base |-> base, ctx |-> "empty", bits |-> FALSE]
+(* bit-sweep families: crossed with the pool contexts only when CtxAll *)
+Sweep(S) == {[cs EXCEPT !.bits = TRUE] : cs \in S}
+InContexts(S) == UNION { IF CtxAll \/ ~cs.bits THEN {[cs EXCEPT !.ctx = x] : x \in Contexts} ELSE {cs} : cs \in S }
 Other(h) == IF h = "low" THEN "high" ELSE "low"
 
 ContentFields == HashedSet \ {"Source", "ChainId"}
@@ -45,14 +51,14 @@ NativeCases(h) ==
                  Case(h, "chain:rehash:" \o ch, "auth", Rehash(SetField(b, "ChainId", ch)), b),
                  Case(h, "chain:replay:" \o ch, "auth", Resign(Rehash(SetField(b, "ChainId", ch)), 1), b) }
                : ch \in {"other", "zero", "empty", Other(h)} }
-  \cup { Case(h, "flipfield:" \o n, "auth", FlipField(b, n, i), b) : n \in ContentFields, i \in FieldBits }
-  \cup { Case(h, "flipfield:Source", "auth", FlipField(b, "Source", i), b) : i \in SourceBits }
-  \cup { Case(h, "hash:flip", "auth", DamageHash(b, "flip", i), b) : i \in HashBits }
+  \cup Sweep({ Case(h, "flipfield:" \o n, "auth", FlipField(b, n, i), b) : n \in ContentFields, i \in FieldBits })
+  \cup Sweep({ Case(h, "flipfield:Source", "auth", FlipField(b, "Source", i), b) : i \in SourceBits })
+  \cup Sweep({ Case(h, "hash:flip", "auth", DamageHash(b, "flip", i), b) : i \in HashBits })
   \cup { Case(h, "hash:zero", "auth", DamageHash(b, "zero", 0), b),
          Case(h, "sign:nil", "auth", DamageSign(b, "nil", 0), b),
          Case(h, "sign:random", "auth", DamageSign(b, "random", 0), b),
          Case(h, "sign:malleated", "auth", DamageSign(b, "malleated", 0), b) }
-  \cup { Case(h, "sign:flip", "auth", DamageSign(b, "flip", i), b) : i \in SignBits }
+  \cup Sweep({ Case(h, "sign:flip", "auth", DamageSign(b, "flip", i), b) : i \in SignBits })
   \cup { Case(h, "unauth:" \o n, "unauth", SetField(b, n, 1), b) : n \in UnauthFields }
 
 EthCases(h, to) ==
@@ -76,17 +82,17 @@ EthCases(h, to) ==
   \cup { Case(h, "wrap:ChainId:" \o ch, IF ch = ChainOf(h) THEN "honest" ELSE "auth", SetWrap(b, "ChainId", ch), b)
            : ch \in {"low", "high", "other", "zero"} }
   \cup { Case(h, "wrap:Data:" \o v, "auth", SetWrap(b, "Data", v), b) : v \in {"value", "gas", "price", "data"} }
-  \cup { Case(h, "wrap:Hash:flip", "auth", FlipWrap(b, "Hash", i), b) : i \in HashBits }
-  \cup { Case(h, "flipfield:" \o n, "auth", FlipWrap(b, n, i), b) :
-           n \in (IF to = "call" THEN {"Target", "Data"} ELSE {"Data"}), i \in FieldBits }
-  \cup { Case(h, "flipfield:Source", "auth", FlipWrap(b, "Source", i), b) : i \in SourceBits }
+  \cup Sweep({ Case(h, "wrap:Hash:flip", "auth", FlipWrap(b, "Hash", i), b) : i \in HashBits })
+  \cup Sweep({ Case(h, "flipfield:" \o n, "auth", FlipWrap(b, n, i), b) :
+           n \in (IF to = "call" THEN {"Target", "Data"} ELSE {"Data"}), i \in FieldBits })
+  \cup Sweep({ Case(h, "flipfield:Source", "auth", FlipWrap(b, "Source", i), b) : i \in SourceBits })
   \cup { Case(h, "ed:" \o d, "auth", DamageEd(b, d, 0), b) : d \in {"upper", "garbage", "trunc", "trail"} }
-  \cup { Case(h, "ed:flip", "auth", DamageEd(b, "flip", i), b) : i \in EdBits }
+  \cup Sweep({ Case(h, "ed:flip", "auth", DamageEd(b, "flip", i), b) : i \in EdBits })
   \cup { Case(h, "free:" \o n, "unauth", SetWrap(b, n, IF n = "Sign" THEN "some" ELSE 1), b) : n \in EthFree }
 
 Seeds == { [op |-> "seed", kind |-> "native", h |-> h] : h \in Heights }
          \cup { [op |-> "seed", kind |-> "eth", h |-> h, to |-> to] : h \in Heights, to \in {"call", "create"} }
-CasesOf(s) == IF s.kind = "native" THEN NativeCases(s.h) ELSE EthCases(s.h, s.to)
+CasesOf(s) == InContexts(IF s.kind = "native" THEN NativeCases(s.h) ELSE EthCases(s.h, s.to))
 
 Init == phase = 0 /\ c \in Seeds
 Next == phase = 0 /\ phase' = 1 /\ c' \in CasesOf(c)
@@ -95,10 +101,18 @@ Spec == Init /\ [][Next]_vars
 Theorems == phase = 1 =>
   /\ (c.cls = "auth" => ~Accept(c.tx, c.h))
   /\ (c.cls \in {"honest", "unauth"} => Accept(c.tx, c.h))
+  \* the verdict is the same in every pool context
+  /\ \A x \in Contexts : Admit(PoolOf(x, c.base, c.tx, c.h), c.tx, c.h) = Admit(PoolOf("empty", c.base, c.tx, c.h), c.tx, c.h)
+  /\ (Pooled(PoolOf(c.ctx, c.base, c.tx, c.h), c.tx, c.h) => Accept(c.tx, c.h))
   /\ Accept(c.base, IF c.mut = "other-height" THEN Other(c.h) ELSE c.h)      \* every base is honest at its own height
 (* an unprotected payload is never authentic, whatever chain id the wrapper declares *)
 ASSUME \A h \in Heights : \A ch \in {"pay", "low", "high", "zero"} :
          ~Accept(SetWrap(Wrapped(BasePay("none", "call")), "ChainId", ch), h)
+
+(* the context dimension is not vacuous: the lattice holds cases on which a pool-dependent shortcut
+   would decide differently from the reference (content changed, hash and signature of a pending original kept) *)
+ASSUME \E cs \in NativeCases("low") : \E x \in Contexts :
+         LET p == PoolOf(x, cs.base, cs.tx, cs.h) IN ShortcutAdmit(p, cs.tx, cs.h) # Admit(p, cs.tx, cs.h)
 
 Dump == phase = 1 => PrintT(<<"CASE", ToJson(c)>>)
 =============================================================================
